@@ -88,10 +88,22 @@ def ref_value(s, x):
 def data(case, key='seed', m=None):
     rng = np.random.default_rng(case[key])
     m = m or case['m']
-    x = rng.uniform(-1, 1, (case['d'], m))
+    form = case.get('data_form', 'float')
+    if form == 'int':
+        x = rng.integers(-2, 3, (case['d'], m)).astype(np.int64)       # integer-typed snapshot matrix
+    elif form == 'strided':
+        big = rng.uniform(-1, 1, (case['d'], 2 * m))
+        x = big[:, ::2]                                                  # non-contiguous view
+    elif form == 'fortran':
+        x = np.asfortranarray(rng.uniform(-1, 1, (case['d'], m)))
+    else:
+        x = rng.uniform(-1, 1, (case['d'], m))
     if case.get('duplicate') and m >= 2:
         x[:, -1] = x[:, 0]
     return x
+
+
+DATA_FORM = st.sampled_from(['float', 'float', 'float', 'int', 'strided', 'fortran'])
 
 
 def psi_ref(values):
@@ -113,7 +125,7 @@ def general_case(draw):
     p = draw(st.integers(1, 4))
     phi = [[fn_spec(draw, d) for _ in range(draw(st.sampled_from([1, 2, 2, 3, 4])))] for _ in range(p)]
     return {'d': d, 'm': m, 'phi': phi, 'seed': draw(gen.SEED), 'seed2': draw(gen.SEED), 'm2': draw(st.integers(1, 6)),
-            'duplicate': draw(st.sampled_from([False, False, True])), 'lag': draw(st.sampled_from([0, 1, 1, 2, 3]))}
+            'duplicate': draw(st.sampled_from([False, False, True])), 'lag': draw(st.sampled_from([0, 1, 1, 2, 3])), 'data_form': draw(DATA_FORM)}
 
 
 def general_labels(case):
@@ -132,6 +144,8 @@ def general_labels(case):
         lab.add('p1')
     if case.get('lag') and case['m'] >= 2:
         lab.add('lagged_views')
+    if case.get('data_form', 'float') != 'float':
+        lab.add('data_' + case['data_form'])
     return lab
 
 
@@ -187,7 +201,7 @@ def major_case(draw):
     m = draw(st.sampled_from([1, 2, 3, 5, 8]))
     p = draw(st.integers(1, 4))
     return {'d': d, 'm': m, 'phi': [draw(st.sampled_from(SCALAR)) for _ in range(p)], 'add_one': draw(st.booleans()),
-            'seed': draw(gen.SEED), 'duplicate': draw(st.sampled_from([False, False, True]))}
+            'seed': draw(gen.SEED), 'duplicate': draw(st.sampled_from([False, False, True])), 'data_form': draw(DATA_FORM)}
 
 
 def body_major(case):
@@ -238,6 +252,8 @@ def body_major(case):
         lab.add('duplicated_snapshot')
     if len(set(names)) > 1:
         lab.add('mixed_families')
+    if case.get('data_form', 'float') != 'float':
+        lab.add('data_' + case['data_form'])
     return lab
 
 
@@ -253,7 +269,7 @@ def hocur_case(draw):
     phi = [[fn_spec(draw, d) for _ in range(draw(st.sampled_from([1, 2, 3, 3])))] for _ in range(p)]
     return {'d': d, 'm': m, 'phi': phi, 'seed': draw(gen.SEED), 'duplicate': draw(st.sampled_from([False, False, True])),
             'ranks_extra': draw(st.integers(0, 3)), 'repeats': draw(st.integers(1, 3)), 'multiplier': draw(st.sampled_from([2, 3, 10])),
-            'ranks_list': draw(st.booleans())}
+            'ranks_list': draw(st.booleans()), 'data_form': draw(st.sampled_from(['float', 'float', 'strided', 'fortran']))}
 
 
 def body_hocur(case):
@@ -281,7 +297,7 @@ def body_hocur(case):
 
 
 def nt(labels):
-    return bool({'m1', 'd1', 'single_function_mode', 'mixed_families', 'duplicated_snapshot', 'add_one_false', 'p1'} & set(labels))
+    return bool({'m1', 'd1', 'single_function_mode', 'mixed_families', 'duplicated_snapshot', 'add_one_false', 'p1', 'data_int', 'data_strided', 'data_fortran'} & set(labels))
 
 
 SUBCHECKS = [
